@@ -26,7 +26,60 @@ fn run_slice_with(input: &[u8], from: Option<Fmt>, to: Fmt, w: &mut FaultWriter)
 	}
 }
 
+/// Faults far into BIG inputs (beyond any bound a detection trial might put on
+/// what it reads): the reader's text must still be in the error.
+fn big_input_faults(out: &mut Out) {
+	let big_json = {
+		let mut s = String::with_capacity(10 << 20);
+		s.push('[');
+		let mut i = 0u64;
+		while s.len() < (9 << 20) {
+			if i > 0 {
+				s.push(',');
+			}
+			s.push_str(&format!("{{\"id\":{i},\"v\":\"0123456789abcdef\"}}"));
+			i += 1;
+		}
+		s.push_str("]\n");
+		s.into_bytes()
+	};
+	let yaml_text = format!("k: \"{}\"\nn: 1\n", "x\u{e9}".repeat(100_000));
+	let big_utf16 = crate::engines::encoding::encode_text(&yaml_text, 1, true);
+	let big_utf32 = crate::engines::encoding::encode_text(&yaml_text, 4, false);
+	let big_yaml = yaml_text.clone().into_bytes();
+	let big_msgpack = {
+		let mut v = vec![0xdd, 0x00, 0x10, 0x00, 0x00];
+		v.extend(std::iter::repeat(0x01u8).take(1 << 20));
+		v
+	};
+	for (what, input) in [("9 MiB JSON array", &big_json), ("UTF-16LE YAML of 400 KB", &big_utf16), ("UTF-32BE YAML of 800 KB", &big_utf32), ("UTF-8 YAML of 300 KB", &big_yaml), ("1 MiB MessagePack array", &big_msgpack)] {
+		let len = input.len();
+		let mut offsets = vec![len, len - 1, len / 2, 262_144, 262_145, 1 << 20, (2 << 20) + 1, (8 << 20) + 5];
+		offsets.retain(|k| *k <= len);
+		offsets.dedup();
+		for from in [None] {
+			for k in &offsets {
+				for sched in [vec![], vec![65536]] {
+					let mut w = FaultWriter::new(None, vec![]);
+					let r = run_with(input, sched.clone(), Some(*k), from, Fmt::Json, &mut w);
+					out.eval("reader_fault", &format!("big {what} {k} {sched:?}"), true);
+					let problem = match &r {
+						Ok(()) => Some("returned success".to_string()),
+						Err(e) if e.starts_with("PANIC") => Some(format!("panicked: {e}")),
+						Err(e) if !e.contains(READ_FAULT_TEXT) => Some(format!("error text lost the reader's message: {e}")),
+						Err(_) => None,
+					};
+					if let Some(p) = problem {
+						out.fail("reader_fault", "", format!("{what} ({len} bytes) from=detect to=json reader(caps {sched:?}) failing once {k} bytes were delivered: {p}"));
+					}
+				}
+			}
+		}
+	}
+}
+
 pub fn run(out: &mut Out, rng: &mut Rng, thorough: bool) {
+	big_input_faults(out);
 	let mut items = vec![];
 	for &f in &ALL_FMTS {
 		for _ in 0..(if thorough { 120 } else { 25 }) {
